@@ -94,6 +94,11 @@ func c15Jobs() []c15Job {
   "a_math":{"custom_func":{"name":"javascript","args":[{"const":"(function(){ var r = Math.zz === undefined ? 'clean' : 'kept:' + Math.zz; Math.zz = n; return r })()"},{"const":"n"},{"xpath":"n","type":"int"}]}},
   "b_proto":{"custom_func":{"name":"javascript","args":[{"const":"(function(){ var r = typeof [].zzlast; Array.prototype.zzlast = function() { return 1 }; return r })()"}]}}}}}}`,
 			Input: `[{"n":1},{"n":2},{"n":3}]`},
+		// an array element whose xpath is a union: the elements come in the order the xpath engine gives them
+		// (all of the left branch, then the right one) for every record, whatever the nodes' history in the pool
+		c15Job{Name: "xml-union-in-array", Schema: `{` + h("xml") + `,"transform_declarations":{"FINAL_OUTPUT":{"xpath":"/r/o","object":{
+  "u":{"array":[{"xpath":"a|b"}]},"v":{"array":[{"xpath":"b|a|c/a"}]},"w":{"array":[{"xpath":"*[self::b or self::a]"}]}}}}}`,
+			Input: `<r><o><a>a1</a><b>b1</b><a>a2</a><b>b2</b><c><a>a3</a></c></o><o><a>a1</a><b>b1</b><a>a2</a><b>b2</b><c><a>a3</a></c></o><o><b>b1</b><a>a1</a></o></r>`},
 		// a script that enumerates its object argument (JSON.stringify, Object.keys, for-in)
 		c15Job{Name: "js-object-argument-enumerated", Schema: `{` + h("json") + `,"transform_declarations":{"FINAL_OUTPUT":{"xpath":"/*","object":{
   "a_json":{"custom_func":{"name":"javascript","args":[{"const":"JSON.stringify(o)"},{"const":"o"},{"template":"OBJ"}]}},
